@@ -223,3 +223,112 @@ def hyperparameters_from_group(ctx, rep, rule: str) -> None:
                 reads.append((fi, x))
     rep.floor(rule, "DistributedShampoo methods scanned for self.defaults", n, 20)
     rep.ob(rule, "hyperparameters-read-from-the-group", not reads, reads[0][0].loc(reads[0][1]) if reads else ds.module.relpath, "no method of DistributedShampoo other than __init__ reads `self.defaults`" + (f"; {short(reads[0][0].qual)} does: a parameter group overriding that value is given the constructor-level one" if reads else ""), sample=True)
+
+
+def utility_semantics(ctx, rep, rule: str, which: tuple[str, ...] = ("merge_small_dims", "compress_list", "generate_pairwise_indices", "get_dtype_size")) -> None:
+    """The small pure utilities everything else is built on, interpreted on concrete cases (they are pure functions of
+    ints / tuples, so the interpretation is exact): merge_small_dims, compress_list, generate_pairwise_indices, get_dtype_size."""
+    import itertools
+    import math
+    from types import SimpleNamespace
+
+    from ..guards import Interp, Raised, Returned, Unsupported
+
+    repo = ctx.repo
+    UT = "distributed_shampoo.utils.shampoo_utils"
+
+    def call(fi, env, resolve=None, hook=None):
+        body = [s for s in fi.node.body if not (isinstance(s, ast.Expr) and isinstance(s.value, ast.Constant))]
+        try:
+            Interp(dict(env), resolve_name=resolve, call_hook=hook).run(body, lambda e: ast.unparse(e))
+        except Returned as r:
+            v = r.value
+            return tuple(v) if isinstance(v, (list, tuple)) else v
+        except Raised as r:
+            return f"raise {r.exc_name}"
+        except Unsupported as u:
+            raise AnalysisError(f"{rule}: {fi.name} outside the integer sub-language: {u}") from u
+        return None
+
+    if "merge_small_dims" in which:
+        fi = repo.func(f"{UT}:merge_small_dims")
+        p = fi.params
+
+        def oracle(shape, th):
+            sq = [d for d in shape if d != 1] or [1]
+            out = [sq[0]]
+            for d in sq[1:]:
+                if out[-1] * d <= th:
+                    out[-1] *= d
+                else:
+                    out.append(d)
+            return tuple(out)
+
+        bad, n = [], 0
+        for k in range(0, 5):
+            for shape in itertools.product([1, 2, 3, 5], repeat=k):
+                for th in (1, 2, 4, 6, 10, 30):
+                    if not shape:
+                        continue
+                    n += 1
+                    got = call(fi, {p[0]: shape, p[1]: th})
+                    if got != oracle(shape, th):
+                        bad.append((shape, th, got, oracle(shape, th)))
+        rep.ob(rule, "utility:merge_small_dims", not bad, fi.loc(), f"{n} (shape, threshold) cases: size-1 dims dropped (all-ones -> (1,)); left to right, the next dim is fused into the last merged dim iff the product stays <= threshold" + (f"; first disagreement: shape={bad[0][0]}, threshold={bad[0][1]}: code {bad[0][2]}, documented {bad[0][3]}" if bad else ""), sample=True)
+    if "compress_list" in which:
+        fi = repo.func(f"{UT}:compress_list")
+        p = fi.params
+        bad, n = [], 0
+        for k in range(0, 4):
+            for sel in itertools.product([True, False], repeat=k):
+                items = tuple(f"x{i}" for i in range(k))
+                n += 1
+                got = call(fi, {p[0]: items, p[1]: sel})
+                want = tuple(x for x, s_ in zip(items, sel) if s_)
+                if got != want:
+                    bad.append((items, sel, got, want))
+        for a, b in ((2, 1), (1, 2), (0, 1), (3, 2)):
+            n += 1
+            got = call(fi, {p[0]: tuple(range(a)), p[1]: (True,) * b})
+            if not (isinstance(got, str) and got.startswith("raise")):
+                bad.append((a, b, got, "raise (length mismatch)"))
+        rep.ob(rule, "utility:compress_list", not bad, fi.loc(), f"{n} cases: the selected items in order; a selector of another length is rejected (never truncated)" + (f"; first disagreement: {bad[0]}" if bad else ""), sample=True)
+    if "generate_pairwise_indices" in which:
+        fi = repo.func(f"{UT}:generate_pairwise_indices")
+        p = fi.params
+        bad, n = [], 0
+        for k in range(0, 4):
+            for xs in itertools.product([0, 1, 2, 3], repeat=k):
+                n += 1
+                got = call(fi, {p[0]: xs})
+                acc = [0]
+                for x in xs:
+                    acc.append(acc[-1] + x)
+                want = tuple(zip(acc, acc[1:]))
+                if got is None or tuple(got) != want:
+                    bad.append((xs, got, want))
+        rep.ob(rule, "utility:generate_pairwise_indices", not bad, fi.loc(), f"{n} cases: consecutive (start, end) pairs of the running sums starting at 0 — one pair per entry" + (f"; first disagreement: {bad[0]}" if bad else ""), sample=True)
+    if "get_dtype_size" in which:
+        fi = repo.func(f"{UT}:get_dtype_size")
+        p = fi.params
+        BOOL = SimpleNamespace(is_floating_point=False, name="bool")
+        torch_ns = SimpleNamespace(bool=BOOL, finfo=lambda d: SimpleNamespace(bits=d.bits), iinfo=lambda d: SimpleNamespace(bits=d.bits))
+
+        def hook(interp, c):
+            from ..guards import MISSING
+
+            f = c.func
+            if isinstance(f, ast.Attribute) and isinstance(f.value, ast.Name) and f.value.id == "torch" and f.attr in ("finfo", "iinfo"):
+                return SimpleNamespace(bits=interp.ev(c.args[0]).bits)
+            if isinstance(f, ast.IfExp):  # (torch.finfo if dtype.is_floating_point else torch.iinfo)(dtype)
+                return SimpleNamespace(bits=interp.ev(c.args[0]).bits)
+            return MISSING
+
+        bad, n = [], 0
+        cases = [(BOOL, 1)] + [(SimpleNamespace(is_floating_point=fl, bits=b), math.ceil(b / 8)) for fl in (True, False) for b in (8, 16, 32, 64, 4, 12)]
+        for d, want in cases:
+            n += 1
+            got = call(fi, {p[0]: d}, resolve=lambda nm: torch_ns if nm == "torch" else (_ for _ in ()).throw(Unsupported(nm)), hook=hook)
+            if got != want:
+                bad.append((getattr(d, "bits", "bool"), got, want))
+        rep.ob(rule, "utility:get_dtype_size", not bad, fi.loc(), f"{n} dtypes: bool -> 1 byte, otherwise ceil(bits / 8) bytes (float and integer types)" + (f"; first disagreement: bits={bad[0][0]}: code {bad[0][1]}, documented {bad[0][2]}" if bad else ""), sample=True)
